@@ -1,7 +1,7 @@
 /-
 Props/C05.lean — superposition: collections and sumup add fields; fields are linear in excitation.
 -/
-import MagpyVerif.Lemmas.Level2Compose
+import MagpyVerif.Lemmas.Level2Shape
 namespace MagpyVerif.C05
 open MagpyVerif MagpyVerif.Level2
 variable {G V : Type}
@@ -44,5 +44,87 @@ theorem collection_is_sum_of_children [Group G] [AddCommGroup V] [DistribMulActi
     (cs : List (Entry G V)) (k : Sens G V) (m : Nat) (x : V) :
     specValue flipX (.coll cs) k m x = (cs.map fun c => specValue flipX c k m x).sum :=
   specValue_coll flipX hf h0 cs k m x
+
+section sumup
+variable [Group G] [AddCommGroup V] [DistribMulAction G V] [BEq G] [LawfulBEq G]
+
+/-- **sumup is the sum over the source axis** (`B = np.sum(B, axis=0, keepdims=True)` at the end of
+`getBH_level2`): for every accepted input, with or without `pixel_agg`, the array returned with
+`sumup=True` has one block of `N = M·K·P` vectors, the array returned with `sumup=False` has one such
+block per top-level source entry, and flat element `j` of the former is the sum over all entries `l`
+of flat element `l·N + j` of the latter — nothing else is added, nothing is left out. Only
+commutative-monoid addition of `V` is used by the summation itself. -/
+theorem sumup_is_sum (flipX : V → V) (vmin vmax : V → V → V) (entries : List (Entry G V))
+    (sensors : List (Sens G V)) (agg : Agg) (out0 out1 : Out V) (hs : ∀ k ∈ sensors, k.WF)
+    (h0 : getBH flipX vmin vmax entries sensors false false agg = .ok out0)
+    (h1 : getBH flipX vmin vmax entries sensors true false agg = .ok out1) :
+    out0.data.length = entries.length * out1.data.length ∧
+    ∀ j < out1.data.length,
+      out1.data[j]? = some (((List.range entries.length).map fun l =>
+        out0.data.getD (l * out1.data.length + j) 0).sum) := by
+  have hok := not_bad_of_getBH_ok h0
+  have hne : sensors ≠ [] := fun hs => hok (Or.inr (Or.inl hs))
+  obtain ⟨k0, ks, hks⟩ := List.exists_cons_of_ne_nil hne
+  have hk0 : sensors.head? = some k0 := by rw [hks]; rfl
+  have hL : 0 < entries.length := List.length_pos_iff.mpr (fun h => hok (Or.inl h))
+  have hr0 := coreB_rect flipX vmin vmax entries sensors false agg hok hs k0 hk0
+  have hr1 := coreB_rect flipX vmin vmax entries sensors true agg hok hs k0 hk0
+  rw [getBH_ok flipX vmin vmax entries sensors false false agg hok] at h0
+  rw [getBH_ok flipX vmin vmax entries sensors true false agg hok] at h1
+  cases h0; cases h1
+  simp only [Bool.false_eq_true, if_false, if_true] at hr0 hr1 ⊢
+  rw [flat4_length hr0, flat4_length hr1, Nat.one_mul]
+  refine ⟨rfl, ?_⟩
+  intro j hj
+  have := sumupT_getElem? hr0 hL j hj
+  simpa [coreB] using this
+
+/-- the same with the four indices written out: element `(m, k, p)` of the `sumup=True` result is the
+sum over the source index `l` of the elements `(l, m, k, p)` of the `sumup=False` result, both
+addressed in row-major order of the documented shape `(L, M, K, P)` (`P` = number of pixels of a
+sensor, or 1 after pixel_agg) -/
+theorem sumup_is_sum_indexed (flipX : V → V) (vmin vmax : V → V → V) (entries : List (Entry G V))
+    (sensors : List (Sens G V)) (agg : Agg) (out0 out1 : Out V) (hs : ∀ k ∈ sensors, k.WF)
+    (h0 : getBH flipX vmin vmax entries sensors false false agg = .ok out0)
+    (h1 : getBH flipX vmin vmax entries sensors true false agg = .ok out1)
+    (k0 : Sens G V) (hk0 : sensors.head? = some k0) (m k p : Nat)
+    (hm : m < pathLen (entries.flatMap Entry.leaves) sensors) (hk : k < sensors.length)
+    (hp : p < if agg = .none then pixNum k0 else 1) :
+    out1.data[(m * sensors.length + k) * (if agg = .none then pixNum k0 else 1) + p]? =
+      some (((List.range entries.length).map fun l =>
+        out0.data.getD (((l * pathLen (entries.flatMap Entry.leaves) sensors + m) * sensors.length + k) *
+          (if agg = .none then pixNum k0 else 1) + p) 0).sum) := by
+  obtain ⟨_, hsum⟩ := sumup_is_sum flipX vmin vmax entries sensors agg out0 out1 hs h0 h1
+  have hok := not_bad_of_getBH_ok h0
+  have hr1 := coreB_rect flipX vmin vmax entries sensors true agg hok hs k0 hk0
+  have hlen : out1.data.length = pathLen (entries.flatMap Entry.leaves) sensors *
+      (sensors.length * (if agg = .none then pixNum k0 else 1)) := by
+    rw [getBH_ok flipX vmin vmax entries sensors true false agg hok] at h1
+    cases h1
+    simp only [if_true] at hr1
+    rw [flat4_length hr1, Nat.one_mul]
+  generalize (if agg = .none then pixNum k0 else 1) = P at *
+  generalize pathLen (entries.flatMap Entry.leaves) sensors = M at *
+  have hj : (m * sensors.length + k) * P + p < out1.data.length := by
+    rw [hlen, ← Nat.mul_assoc]
+    exact idx_lt (idx_lt hm hk) hp
+  rw [hsum _ hj, hlen]
+  congr 3
+  funext l
+  congr 1
+  ring
+end sumup
+
+-- non-vacuity: `np.sum(axis=0, keepdims=True)` on a 2 × 1 × 2 × 1 array, and the hypotheses of
+-- `sumup_is_sum` (both calls succeed, sensors well-formed) on the scene `Level2.Example`
+example : sumupT (V := Int) [[[[1], [2]]], [[[10], [20]]]] = [[[[11], [22]]]] := by decide
+open Level2.Example in
+example : (∃ out0, getBH exFlip exMin exMax exEntries exSensors false false .none = .ok out0) ∧
+    (∃ out1, getBH exFlip exMin exMax exEntries exSensors true false .none = .ok out1) ∧
+    (∀ k ∈ exSensors, k.ori ≠ [] ∧ k.pos.length = k.ori.length ∧ k.pixels.length = pixNum k) := by
+  refine ⟨⟨_, getBH_ok _ _ _ _ _ _ _ _ (exNotBad _)⟩, ⟨_, getBH_ok _ _ _ _ _ _ _ _ (exNotBad _)⟩, ?_⟩
+  intro k hk
+  simp only [exSensors, List.mem_cons, List.not_mem_nil, or_false] at hk
+  rcases hk with rfl | rfl <;> simp [pixNum]
 
 end MagpyVerif.C05
